@@ -202,7 +202,22 @@ class SimLoop(asyncio.BaseEventLoop):
     def call_exception_handler(self, context):
         ctx = dict(context)
         exc = ctx.get("exception")
-        if OWNER.get() == "sim" and exc is not None and self.fatal is None:
+        # who owns the failing callback / task: the handle's (task's) own context, not the
+        # ambient one (Handle._run reports after leaving the callback's context)
+        owner = None
+        h = ctx.get("handle")
+        try:
+            if h is not None and getattr(h, "_context", None) is not None:
+                owner = h._context.get(OWNER, "sim")
+            else:
+                t = ctx.get("task") or ctx.get("future")
+                if isinstance(t, asyncio.Task):
+                    owner = t.get_context().get(OWNER, "sim")
+        except Exception:  # noqa: BLE001
+            owner = None
+        if owner is None:
+            owner = OWNER.get()
+        if owner == "sim" and exc is not None and self.fatal is None:
             self.fatal = exc
         self.exc_contexts.append(
             {
@@ -210,7 +225,7 @@ class SimLoop(asyncio.BaseEventLoop):
                 "exception": repr(exc) if exc is not None else None,
                 "exc_type": type(exc).__name__ if exc is not None else None,
                 "time": self.clock.now,
-                "owner": OWNER.get(),
+                "owner": owner,
             }
         )
 
